@@ -3,7 +3,7 @@ from textwrap import indent
 
 from pydbml.classes import StickyNote
 from pydbml.renderer.dbml.default.renderer import DefaultDBMLRenderer
-from pydbml.renderer.dbml.default.utils import quote_string
+from pydbml.renderer.dbml.default.utils import name_to_dbml, quote_string
 
 
 @DefaultDBMLRenderer.renderer_for(StickyNote)
@@ -11,5 +11,5 @@ def render_sticky_note(model: StickyNote) -> str:
     text = quote_string(model.text)
 
     text = indent(text, '    ')
-    result = f'Note {model.name} {{\n{text}\n}}'
+    result = f'Note {name_to_dbml(model.name)} {{\n{text}\n}}'
     return result
